@@ -13,12 +13,16 @@ def register(PROPS):
                  'and per fault in {EIO, ENOSPC, EMFILE, short write}.  Every snapshot / post-fault spool must hold only complete live queue files '
                  'and, loaded by a pristine daemon image through the real echsd_inject_queues(), must arm for each user exactly the tasks (UID, '
                  'owner, first occurrence) of that user\'s last completed checkpoint or, once its rename has happened, of the current queue; after '
-                 'SHUTDOWN the current queue of everybody; a fault must leave the daemon alive with its in-memory queue unchanged.  A separate '
+                 'SHUTDOWN the current queue of everybody; a fault must leave the daemon alive with its in-memory queue unchanged.  '
+                 'Second epoch: from every distinct crash-point image (and the completed one) the restarted daemon is given, for each task it scheduled, '
+                 'a CANCEL by its owner or a replacement by a small task, and checkpoints; memory must show exactly the restarted set with that change, '
+                 'every live queue file must be ONE complete calendar (nothing before its BEGIN or behind the END that closes it), and a further restart '
+                 'on that spool must schedule exactly that set (what an interrupted checkpoint leaves behind - temp files - must not leak into later ones).  A separate '
                  'configuration drives 15-18 users through the "dump everybody" path.',
         'note': 'Crash model is process death at a system-call boundary (as the property states): no fsync/power-loss or torn-sector semantics.  '
                 'Trusted: the in-memory spool of harness/daemon/hx.h and the map model in e2_chkpt.c.  Time does not advance in these histories.',
         'rule': 'case = first command (or the empty history); below it all histories to the depth bound, deduplicated by canonical state; '
-                'evaluations counts cases, the counters give checkpoint runs (traces), crash points, injected faults and restarts; '
+                'evaluations counts cases, the counters give checkpoint runs (traces), crash points, injected faults, restarts and second-epoch histories; '
                 'non-trivial = at least two crash points or faults were judged in the case',
         'bound': {'quick': 'depth 3 + 15..18-user configuration', 'thorough': 'depth 4 + 15..18-user configuration'},
         'drivers': [
